@@ -319,6 +319,33 @@ def grid_agreement(S, rep):
                "weights buffer shape %s" % (kw.shape if kw is not None else None,), key="C06.d|%d|width" % dim, nontrivial=False)
 
 
+def simulator_coordinates(S, rep):
+    """(d) the simulators' own cell-centre coordinate field is x_c = dx/2 + i dx along the array axis of coordinate c (x on the
+    last axis), with the one spacing dx = x_range / n_x the communicator is given: only then does Peskin interpolation of that
+    field return the marker position"""
+    from .simtools import build_sim, sim_configs
+    from ..poly import fld
+    for kind in ("2d", "3d", "passive"):
+        for cfg in sim_configs(kind, "quick")[:1] if kind != "passive" else sim_configs(kind, "quick"):
+            run = build_sim(S, cfg)
+            lab = run.label()
+            if run.inst is None or run.raised is not None:
+                rep.ob("C06.d", "%s coordinate field" % lab, False, "simulator cannot be constructed: %s" % run.raised, key="C06.d|%s|ctor" % lab)
+                continue
+            pf = run.inst.attrs.get("position_field")
+            f = arr_valfn(pf) if isinstance(pf, Arr) else None
+            dim = run.dim
+            idx = tuple(fld("i%d" % k, ()) for k in range(dim))
+            dx = sym("x_range") / sym("nx")
+            for c in range(dim):
+                got = f((const(c),) + idx) if f is not None else None
+                want = dx / 2 + idx[dim - 1 - c] * dx
+                ok = got is not None and to_pw(got) == want
+                rep.ob("C06.d", "%s cell centres of coordinate %s" % (lab, "xyz"[c]), ok,
+                       "position_field[%d] = %s, documented dx/2 + i*dx along array axis %d with dx = x_range/nx" % (c, short(got, 160), dim - 1 - c),
+                       key="C06.d|%s|coord|%d|%s" % (kind, c, short(got, 80)), sample={"simulator": lab, "coordinate": "xyz"[c], "value": short(got, 120)})
+
+
 def run(S, tier, rep):
     rep.rule_text = ("the communicator kernels are interpreted abstractly (numba bodies as numpy code, one generic marker): support distances, "
                      "nearest index, weight shape and transfer windows must be one index set with x on the last axis; the weight kernels, fed "
@@ -331,6 +358,8 @@ def run(S, tier, rep):
         for kind in ("cosine", "peskin"):
             kernel_identities(S, rep, dim, kind)
     grid_agreement(S, rep)
+    simulator_coordinates(S, rep)
+    rep.require_min("C06.d", 14)
     rep.require_min("C06.a", 8)
     rep.require_min("C06.b", 25)
     rep.require_min("C06.c", 12)
